@@ -387,6 +387,8 @@ def oracle(c, obs):
         c["fs"] = parse_fields(desc)[0]
         c["vs"] = parse_vals(c["fs"], t[2])
     fs, vs = c["fs"], c["vs"]
+    if obs.endswith(" retained=changed"):
+        return "the bytes returned by Marshal changed after the caller marshalled other values (the encoding of v is no longer what the caller holds)"
     m = re.match(r"enc=([0-9a-f]*) dec=(\S+)$", obs)
     if not m:
         return "Marshal failed: " + obs[:60]
